@@ -137,6 +137,12 @@ def query_case(draw, max_tasks=8):
                 if x != '<absent>':
                     e['custom'][a] = x
             ext.append(e)
+        if draw(st.integers(0, 2)) == 0:
+            # the shortest query there is: one plain equality, on a value that an outsider shares with a member
+            # (lookups "by id" that stop at the first hit would pass everywhere but here)
+            e = draw(st.sampled_from(ext))
+            a = draw(st.sampled_from(['id', 'id', 'name', 'resource', 'estimate']))
+            flt = dict(kw=[[a, '', e[a]]], in_form='list')
     return dict(spec=spec, recv=recv, of=draw(st.integers(0, 20)), flt=flt, action=action, ext=ext,
                 assign=[draw(st.sampled_from(['tag', 'name', 'resource', 'prio', 'color'])), draw(st.sampled_from(['zz', 7, None]))])
 
@@ -448,6 +454,17 @@ def exhaustive(tier):
             for v in cands:
                 for recv in ('wbs.tasks', 'wbs.roots', 'all_children'):
                     yield dict(spec=spec, recv=recv, of=1, flt=dict(kw=[[attr, suf, v]]), action='query', assign=['tag', 'zz'])
+    # link lists that hold a member and an outsider with the same id (and, for the second one, the same name): single plain filters
+    for of in range(6):
+        own_id = spec['tasks'][of]['id']
+        for tid in range(1, 7):
+            if tid == own_id:
+                continue
+            twin = dict(id=tid, parent=None, name=spec['tasks'][tid - 1]['name'], resource='zed', estimate=1, spent=None, milestone=False, custom={'tag': 'red'})
+            for recv in ('predecessors', 'successors'):
+                for action in ('query', 'assign', 'remove_all'):
+                    for kw in ([['id', '', tid]], [['name', '', twin['name']]], [['tag', '', 'red']]):
+                        yield dict(spec=spec, recv=recv, of=of, flt=dict(kw=kw), action=action, ext=[twin], assign=['tag', 'zz'])
 
 
 def streams(tier):
